@@ -435,3 +435,35 @@ def main(check_modname, argv):
             print('VIOLATION property=%s replay=%s' % (prop, path))
         return 1
     return 0
+
+
+def machine_run(machine_cls, seed, max_examples, steps, rec, shrink=False, timeout=None):
+    """Run a RuleBasedStateMachine (collect mode: failures are recorded by the machine
+    through rec.fail and never raised; shrink mode: ShrinkHit is raised and minimised)."""
+    import hypothesis
+    from hypothesis import settings, HealthCheck, Phase
+    from hypothesis.stateful import run_state_machine_as_test
+    phases = [Phase.generate, Phase.shrink] if shrink else [Phase.generate]
+    st = settings(max_examples=max_examples, stateful_step_count=steps, database=None, deadline=None,
+                  derandomize=False, report_multiple_bugs=False, phases=phases, print_blob=False,
+                  suppress_health_check=list(HealthCheck), verbosity=hypothesis.Verbosity.quiet)
+    machine_cls.REC = rec
+    machine_cls.T_START = time.time()
+    machine_cls.TIMEOUT = timeout
+    try:
+        run_state_machine_as_test(hypothesis.seed(seed)(machine_cls), settings=st)
+    except ShrinkHit:
+        pass
+    except _Timeout:
+        rec.notes['shrink-timeout'] += 1
+    except Exception as e:
+        # Hypothesis wraps failures of stateful tests; a ShrinkHit inside is expected in shrink mode
+        if shrink and rec.best is not None:
+            return
+        raise
+
+
+def machine_tick(machine):
+    """call at the start of each machine: honours the shrink time budget"""
+    if machine.TIMEOUT and time.time() - machine.T_START > machine.TIMEOUT:
+        raise _Timeout()
